@@ -678,12 +678,13 @@ func driveC15(c *h.Ctx) error {
 	var cases []c15Case
 	nestedOnly := false
 	if c.Replay != nil {
-		if m, _ := c.Replay["case"].(map[string]any); m != nil && m["kind"] == "nested-request" {
+		if m, _ := c.Replay["case"].(map[string]any); m != nil && (m["kind"] == "nested-request" || m["kind"] == "middleware") {
 			nestedOnly = true
 		}
 	}
 	if c.Replay == nil || nestedOnly {
 		c15Nested(c)
+		c15Middlewares(c)
 	}
 	if nestedOnly {
 		// nothing else to replay
